@@ -97,6 +97,7 @@ def run(fb, rep, tier):
     accepted_has_objective(fb, rep)
     farkas_sense(fb, rep)
     reduced_cost_sign(fb, rep)
+    lifted_entries(fb, rep)
 
 
 def flags(fb, rep, opt):
@@ -373,3 +374,31 @@ def reduced_cost_sign(fb, rep):
                       'after %s = y*col - obj the value is negated %s times depending on the path: where it is not negated exactly once the reduced cost has the wrong sign' % (X, sorted(tot)))
     if k < 5:
         raise AnalysisBroken('R03.8: only %d reduced-cost recomputations found' % k)
+
+
+def lifted_entries(fb, rep):
+    """R03.9: the lifting transformation edits the matrix of the user's LPs in place: _lift() sets entries of original columns to zero (they move
+    to lifting columns).  Removing the lifting rows and columns in _project() does not bring them back; for each LP whose entries _lift() zeroes,
+    _project() must write entries of that LP again (changeElement), and _lift() must record what it zeroed in members that _project() reads."""
+    rep.rule('R03.9', 'for each LP whose matrix entries _lift() zeroes in place, _project() writes entries of that LP back from what _lift() recorded', floor=2)
+    lift = fb.one(C + '::_lift')
+    proj = fb.one(C + '::_project')
+
+    def ce(f):
+        out = {}
+        for n in f.nodes:
+            if n.k == 'CXXMemberCallExpr' and n.short == 'changeElement' and n.obj() is not None:
+                out.setdefault(render(strip(n.obj())), []).append(n)
+        return out
+    zeroed = {lp: [n for n in ns if len(n.args()) >= 3 and re.fullmatch(r'(Rational\()?\(?0(\.0)?\)?\)?', render(strip(n.args()[2])).replace('(double)', ''))] for lp, ns in ce(lift).items()}
+    zeroed = {lp: ns for lp, ns in zeroed.items() if ns}
+    if len(zeroed) < 2:
+        raise AnalysisBroken('R03.9: _lift() zeroes entries of %d LPs, expected the rational and the real one' % len(zeroed))
+    back = ce(proj)
+    # members written in _lift and read in _project
+    wl = set(n.short for n in lift.nodes if n.k == 'MemberExpr' and n.short and n.short.startswith('_lift'))
+    rp = set(n.short for n in proj.nodes if n.k == 'MemberExpr' and n.short and n.short.startswith('_lift'))
+    for lp, ns in sorted(zeroed.items()):
+        ok = lp in back and bool(wl & rp)
+        rep.check(ok, 'R03.9', '_lift/_project|%s' % lp, '%s:%d' % (lift.file, ns[0].l), '_project() writes entries of %s back (recorded in %s)' % (lp, sorted(wl & rp)[:3]),
+                  '_lift() zeroes matrix entries of %s (line %d) and _project() never writes an entry of it: after an exact solve with lifting the user\'s LP has lost these entries' % (lp, ns[0].l))
